@@ -1,6 +1,7 @@
 package verifh
 
 import (
+	"bytes"
 	"os"
 	"os/exec"
 	"path/filepath"
@@ -71,4 +72,92 @@ func anchorISOReader(r *Reporter) {
 		return
 	}
 	r.Note("bsdtar not present: reference reader anchored on the third-party image only")
+}
+
+// anchorGeneratedImages: libarchive (bsdtar) must read generated images the way the reference reader does:
+// same set of portable-name paths, same bytes for every file. Guards against a reader bug mirroring a generator bug.
+func anchorGeneratedImages(r *Reporter, scratch string) {
+	bt := ""
+	for _, c := range []string{"/root/miniconda/bin/bsdtar", "/usr/bin/bsdtar"} {
+		if _, err := os.Stat(c); err == nil {
+			bt = c
+			break
+		}
+	}
+	if bt == "" {
+		r.Note("bsdtar not present: generated images not cross-read by a third-party reader")
+		return
+	}
+	root := filepath.Join(scratch, "anchor-root")
+	trees := []Tree{
+		{Nodes: []TreeNode{{Parent: -1, Size: 2049, Name: "a"}, {Parent: -1, Size: 1, Name: "B.TXT"}}},
+		{Nodes: []TreeNode{{Parent: -1, Dir: true, Name: "a"}, {Parent: 0, Size: 2048, Name: "a"}, {Parent: 0, Dir: true, Name: "e5"}, {Parent: 2, Size: 70000, Name: "B.TXT"}, {Parent: -1, Size: 0, Name: "B.TXT"}}},
+		{Nodes: []TreeNode{{Parent: -1, Dir: true, Name: "e5"}, {Parent: 0, Size: 1, Name: "a"}, {Parent: 0, Size: 2047, Name: "B.TXT"}, {Parent: 0, Size: 4097, Name: "e5"}}},
+	}
+	// a directory large enough to need several sectors of records
+	big := Tree{}
+	for i := 0; i < 130; i++ {
+		big.Nodes = append(big.Nodes, TreeNode{Parent: -1, Size: int64(i * 37 % 5000), Name: sprintf("file-%03d.bin", i)})
+	}
+	trees = append(trees, big)
+	agree := 0
+	for ti, tr := range trees {
+		os.RemoveAll(root)
+		dir := filepath.Join(root, "T")
+		must(os.MkdirAll(dir, 0o755))
+		tr.Materialize(dir)
+		v, err := openVISO(root, "/T", false)
+		if err != nil {
+			continue
+		}
+		st, _ := v.Stat()
+		img, err := canonicalImage(v, 1<<20, st.Size()+1<<20)
+		v.Close()
+		if err != nil {
+			continue
+		}
+		ip := filepath.Join(scratch, "anchor.iso")
+		must(os.WriteFile(ip, img, 0o644))
+		out, err := exec.Command(bt, "-tf", ip).Output()
+		if err != nil {
+			r.Violation("C07:third-party-reader-rejects-image", sprintf("bsdtar cannot list the generated image of tree %d [%s]: %v", ti, tr.String(), err), map[string]any{"tree": tr.Nodes})
+			continue
+		}
+		var theirs []string
+		for _, l := range strings.Split(strings.TrimSpace(string(out)), "\n") {
+			l = strings.TrimSuffix(strings.TrimSpace(l), "/")
+			if l != "" && l != "." {
+				theirs = append(theirs, l)
+			}
+		}
+		sort.Strings(theirs)
+		var mine []string
+		for i := range tr.Nodes {
+			mine = append(mine, tr.Path(i))
+		}
+		sort.Strings(mine)
+		if strings.Join(mine, "|") != strings.Join(theirs, "|") {
+			r.Violation("C07:third-party-reader-lists-differently", sprintf("tree %d [%s]: bsdtar lists %v, source tree has %v", ti, tr.String(), theirs, mine), map[string]any{"tree": tr.Nodes})
+			continue
+		}
+		ok := true
+		for i, n := range tr.Nodes {
+			if n.Dir {
+				continue
+			}
+			got, err := exec.Command(bt, "-xOf", ip, tr.Path(i)).Output()
+			want, _ := os.ReadFile(filepath.Join(dir, tr.Path(i)))
+			if err != nil || !bytes.Equal(got, want) {
+				ok = false
+				r.Violation("C07:third-party-reader-extracts-differently", sprintf("tree %d: bsdtar extracts %s with %d bytes (err %v), source has %d: %s", ti, tr.Path(i), len(got), err, len(want), describeDiff(got, want)), map[string]any{"tree": tr.Nodes})
+				break
+			}
+		}
+		if ok {
+			agree++
+		}
+	}
+	r.Extra("bsdtar_agrees_on_generated_images", agree)
+	os.RemoveAll(root)
+	os.Remove(filepath.Join(scratch, "anchor.iso"))
 }
